@@ -14,6 +14,12 @@
 //! obs:  {"loops": [ {"hops": [[url, status, method]..], "error": null|"Loop"|..} | {"error_message": ..} per probe ]}
 //!   = the `redirection_loop` of `ExplainRequestOutput` (standalone family) per probe; the model
 //!   (Model/Loop.lean) must produce exactly this from the table.
+//!   Optional case fields written by `gen --with-an`: `an` (W4: per-example pipeline table of the final router; obs.an = the projection
+//!   of TestExamplesOutput / UnitIdsOutput the model's glue must equal) and `an2` (W10: the same plus, per example, url / method, the
+//!   explain-convention result, trace ids and the walker's step table; also one entry per probe and per example of the impact rule;
+//!   obs.an2 = the projection of TestExamplesOutput with whole chains, UnitIdsOutput, ExplainRequestOutput per probe and ImpactOutput
+//!   that the model's testExamples / unitIds / explain / computeImpacts, run on the table, must equal — compute_an2 / observe_an2).
+//!   Cases without these fields (corpus) replay as before.
 //! oracles on the implementation (`.fail`):
 //!   project-vs-standalone  analysis_project(router(B), D, e) == analysis_standalone(apply(B, D), e), canonical JSON,
 //!                          for test-examples, explain, impact, unit-ids
@@ -593,6 +599,7 @@ fn case_digest(case: &Value) -> String {
     if let Some(o) = c.as_object_mut() {
         o.remove("tables");
         o.remove("an");
+        o.remove("an2");
         o.remove("digest");
     }
     let mut h: u64 = 0xcbf29ce484222325;
@@ -611,6 +618,9 @@ fn finish_case(mut case: Value) -> Value {
     if std::env::args().any(|a| a == "--with-an") {
         let an = std::panic::catch_unwind(std::panic::AssertUnwindSafe(|| compute_an(&case))).ok().flatten();
         case["an"] = an.unwrap_or(Value::Null);
+        // W10: the extended table (step table, explain-convention result and traces per example; probes; impact examples)
+        let an2 = std::panic::catch_unwind(std::panic::AssertUnwindSafe(|| compute_an2(&case))).ok().flatten();
+        case["an2"] = an2.unwrap_or(Value::Null);
     }
     case["digest"] = json!(case_digest(&case));
     case
@@ -1131,6 +1141,158 @@ fn observe_an(applied: &[Rule], te: &Value, ui: &Value) -> Value {
 }
 
 // ------------------------------------------------------------------------------------------------
+// W10: the extended per-example table (driver key "an2", Model/LoopAnalysisTable2.lean): on it the model runs its OWN walker
+// (Loop.compute over the step table of every example), explain and compute_impacts; format in the header of the Lean file
+
+/// sorted ids of the routes in the storage nodes of `router.trace_request(&request)`
+fn trace_ids(router: &Router<Rule>, request: &Request) -> Vec<String> {
+    let mut ids = Vec::new();
+    trace_route_ids(&serde_json::to_value(router.trace_request(request)).unwrap_or(Value::Null), &mut ids);
+    ids.sort();
+    ids
+}
+
+/// one entry E: `router` is the analysed router, `trace_router` the router whose `trace_request` the analysis reports
+/// when that is another one (impact); `with_ids`: the test-examples / unit-ids conventions (rule tables only)
+fn an2_entry(router: &Router<Rule>, trace_router: Option<&Router<Rule>>, ex: &Example, domains: &[String], max_hops: u8, with_ids: bool) -> Value {
+    let mut e = json!({"url": ex.url, "method": ex.method, "expected": ex.unit_ids_applied, "must_match": ex.must_match});
+    match Request::from_example(&router.config, ex) {
+        Err(err) => e["req"] = json!({"err": err.to_string()}),
+        Ok(request) => {
+            e["req"] = json!("ok");
+            if with_ids {
+                if let Ok(t) = direct(router, ex, Convention::ProxyOrder, true) {
+                    e["test_rule_ids"] = json!(t.unit_trace.get_rule_ids_applied().into_iter().collect::<Vec<_>>());
+                    e["test_unit_ids"] = json!(t.unit_trace.get_unit_ids_applied().into_iter().collect::<Vec<_>>());
+                }
+                if let Ok(u) = direct(router, ex, Convention::ProxyOrder, false) {
+                    e["unit_unit_ids"] = json!(u.unit_trace.get_unit_ids_applied().into_iter().collect::<Vec<_>>());
+                }
+            }
+            if let Ok(d) = direct(router, ex, Convention::Fallback, true) {
+                e["core"] = response_json(&d);
+            }
+            e["trace"] = json!(trace_ids(router, &request));
+            if let Some(t) = trace_router {
+                e["trace_t"] = json!(trace_ids(t, &request));
+            }
+        }
+    }
+    e["rows"] = table_for(router, ex, domains, max_hops);
+    e
+}
+
+/// the routers of the impact analysis: (apply(B, D) without the rule's id, plus the rule for add / update; the trace-unique router)
+fn impact_routers(c: &Case, applied: &[Rule], rule: &Rule, action: &str) -> (Router<Rule>, Router<Rule>) {
+    let mut rules: Vec<Rule> = applied.iter().filter(|r| r.id != rule.id).cloned().collect();
+    let mut unique: Vec<Rule> = Vec::new();
+    if action == "add" || action == "update" {
+        rules.push(rule.clone());
+        unique.push(rule.clone());
+    }
+    (router_of(&c.config, &rules), router_of(&c.config, &unique))
+}
+
+fn compute_an2(case: &Value) -> Option<Value> {
+    let c = parse_case(case).ok()?;
+    let applied = c.applied();
+    let router = router_of(&c.config, &applied);
+    let mut rules = Vec::new();
+    for (id, route) in router.routes() {
+        let exs: Value = match &route.handler().examples {
+            None => Value::Null,
+            Some(examples) => Value::Array(examples.iter().map(|ex| an2_entry(&router, None, ex, &c.domains, c.max_hops, true)).collect()),
+        };
+        rules.push(json!({"id": id, "examples": exs}));
+    }
+    let explain: Vec<Value> = c.probes.iter().map(|p| an2_entry(&router, None, p, &c.domains, c.max_hops, false)).collect();
+    let impact = match &c.impact {
+        None => Value::Null,
+        Some((rule, action, with_loop)) => {
+            let (ir, tr) = impact_routers(&c, &applied, rule, action);
+            let exs: Value = match &rule.examples {
+                None => Value::Null,
+                Some(examples) => Value::Array(examples.iter().map(|ex| an2_entry(&ir, Some(&tr), ex, &c.domains, c.max_hops, false)).collect()),
+            };
+            json!({"with_loop": with_loop, "examples": exs})
+        }
+    };
+    Some(json!({"max_hops": c.max_hops, "rules": rules, "explain": explain, "impact": impact}))
+}
+
+/// `RedirectionLoop` as the model prints it
+fn loop_proj(rl: &Value) -> Value {
+    if rl.is_null() {
+        return Value::Null;
+    }
+    json!({"hops": rl["hops"].as_array().cloned().unwrap_or_default().iter().map(|h| json!([h["url"], h["status_code"], h["method"]])).collect::<Vec<_>>(), "error": rl["error"]})
+}
+
+fn route_ids_of(traces: &Value) -> Vec<String> {
+    let mut ids = Vec::new();
+    trace_route_ids(traces, &mut ids);
+    ids.sort();
+    ids
+}
+
+/// the projection of the real outputs (standalone family, final rule list) the model run on "an2" must equal
+fn observe_an2(c: &Case, applied: &[Rule], te: &Value, ui: &Value, explains: &[Value], impact: &Option<Value>) -> Value {
+    let base = observe_an(applied, te, ui);
+    // test-examples: as `an`, with the whole redirect chain of a chain failure instead of its error
+    let mut failures = Vec::new();
+    if let (Some(m), Some(b)) = (te["first_ten_failures"].as_object(), base["failures"].as_array()) {
+        for ((id, fr), bf) in m.iter().zip(b.iter()) {
+            let rep = fr["failed_examples"].as_array().cloned().unwrap_or_default();
+            let items: Vec<Value> = rep.iter().zip(bf[1].as_array().cloned().unwrap_or_default().iter()).map(|(fe, bi)| json!([bi[0], bi[1], bi[2], bi[3], loop_proj(&fe["redirection_loop"])])).collect();
+            failures.push(json!([id, items]));
+        }
+    }
+    let te_obs = json!({"example_count": te["example_count"], "failure_count": te["failure_count"], "error_count": te["error_count"], "failures": failures, "errors": base["errors"]});
+    let explain: Vec<Value> = explains
+        .iter()
+        .enumerate()
+        .map(|(pi, e)| {
+            if let Some(msg) = e.get("error_message") {
+                return json!({"error_message": msg});
+            }
+            let same = c.probes.get(pi).map(|p| serde_json::to_value(p).unwrap() == e["example"]).unwrap_or(false);
+            json!({"idx": if same { json!(pi) } else { json!(-1) }, "core": response_of_output(e), "trace": route_ids_of(&e["match_traces"]), "loop": loop_proj(&e["redirection_loop"])})
+        })
+        .collect();
+    let impact_obs = match (impact, &c.impact) {
+        (Some(out), Some((rule, _, _))) => {
+            let examples: Vec<Value> = rule.examples.clone().unwrap_or_default().iter().map(|e| serde_json::to_value(e).unwrap()).collect();
+            let default_trace = serde_json::to_value(UnitTrace::default()).unwrap();
+            Value::Array(
+                out["impacts"]
+                    .as_array()
+                    .cloned()
+                    .unwrap_or_default()
+                    .iter()
+                    .enumerate()
+                    .map(|(k, imp)| {
+                        let idx = if examples.get(k) == Some(&imp["example"]) { json!(k) } else { json!(-1) };
+                        if !imp["error"].is_null() {
+                            let defaults = imp["unit_trace"] == default_trace
+                                && imp["backend_status_code"] == json!(0)
+                                && imp["response"] == json!({"status_code": 0, "headers": [], "body": ""})
+                                && imp["redirection_loop"].is_null()
+                                && imp["match_traces"] == json!([])
+                                && imp["should_log_request"] == json!(false);
+                            json!({"idx": idx, "error": imp["error"], "defaults": defaults})
+                        } else {
+                            json!({"idx": idx, "core": response_of_output(imp), "trace": route_ids_of(&imp["match_traces"]), "loop": loop_proj(&imp["redirection_loop"])})
+                        }
+                    })
+                    .collect(),
+            )
+        }
+        _ => Value::Null,
+    };
+    json!({"te": te_obs, "unit_ids": base["unit_ids"], "explain": explain, "impact": impact_obs})
+}
+
+// ------------------------------------------------------------------------------------------------
 // checks on a RedirectionLoop value found in an output
 
 fn check_loop(l: &Value, max_hops: u8) -> Result<(), (String, &'static str)> {
@@ -1491,12 +1653,15 @@ fn run(case: &Value) -> Obs {
 
     // ---- explain, per probe
     let mut loops = Vec::new();
+    let mut explain_outs: Vec<Value> = Vec::new();
+    let mut impact_out: Option<Value> = None;
     for (pi, probe) in c.probes.iter().enumerate() {
         let ex_std = |rules: &[Rule]| -> Value {
             let input: ExplainRequestInput = serde_json::from_value(json!({"router_config": c.config_json, "example": probe, "rules": rules, "max_hops": c.max_hops, "project_domains": c.domains})).unwrap();
             explain_value(ExplainRequestOutput::create_result_without_project(input))
         };
         let e_s = ex_std(&applied);
+        explain_outs.push(e_s.clone());
         let e_r = ex_std(&reversed);
         {
             // statistic: which serialised fields change between two evaluations of the SAME input (array order only)
@@ -1584,6 +1749,7 @@ fn run(case: &Value) -> Obs {
             serde_json::to_value(ImpactOutput::create_result(input)).unwrap()
         };
         let i_s = im_std(&applied);
+        impact_out = Some(i_s.clone());
         let i_r = im_std(&reversed);
         {
             let mut d = Vec::new();
@@ -1690,6 +1856,30 @@ fn run(case: &Value) -> Obs {
         // floor (run_args --require-an): a case exactly as generated must carry the analysis table; a generator that silently
         // stops producing it (parse failure, panic in compute_an) is an oracle failure, not a quietly weaker run
         return Obs::new(json!({"an": "missing"})).fail("the generated case carries no analysis table (`an`)", "an-missing");
+    }
+    if let Some(an2) = case.get("an2").filter(|a| !a.is_null()) {
+        let sorted = |v: &Value| -> Value {
+            let mut v = v.clone();
+            if let Some(a) = v["rules"].as_array_mut() {
+                a.sort_by_key(|r| r["id"].as_str().unwrap_or("").to_string());
+            }
+            v
+        };
+        let now = compute_an2(case).unwrap_or(Value::Null);
+        if sorted(&now) != sorted(an2) {
+            if case.get("digest").and_then(|d| d.as_str()) == Some(case_digest(case).as_str()) {
+                return Obs::new(json!({"an2": "table differs"})).fail("the extended per-example table the generator observed differs from the one this process observes for the same case", "nondeterministic-pipeline");
+            }
+            return Obs::invalid("stale analysis table 2");
+        }
+        obs["an2"] = observe_an2(&c, &applied, &te_s, &ui_s, &explain_outs, &impact_out);
+        tags.push("an2-compared".into());
+        if c.impact.as_ref().map(|(r, _, _)| r.examples.as_ref().map(|e| !e.is_empty()).unwrap_or(false)).unwrap_or(false) {
+            tags.push("an2-impact-examples".into());
+        }
+    } else if case.get("an").filter(|a| !a.is_null()).is_some() && case.get("digest").and_then(|d| d.as_str()) == Some(case_digest(case).as_str()) && std::env::args().any(|a| a == "--require-an") {
+        // a case generated by THIS generator (it carries `an`, digest intact) must carry the extended table too
+        return Obs::new(json!({"an2": "missing"})).fail("the generated case carries no extended analysis table (`an2`)", "an-missing");
     }
     let mut o = Obs::new(obs).trivial(!nontrivial);
     o.tags = tags;
